@@ -69,6 +69,13 @@ func (d dissecting) Dissect(b *bufio.Reader, reader api.TcpReader) error {
 			// We must read until we see an EOF... very important!
 			return err
 		}
+		if err != nil {
+			if _, isProtocolError := err.(*Error); !isProtocolError && err != errHeartbeatPayload {
+				// The reader itself failed (not a malformed frame): retrying would spin forever
+				// on a reader that keeps failing.
+				return err
+			}
+		}
 
 		switch f := frameVal.(type) {
 		case *HeartbeatFrame:
